@@ -550,7 +550,8 @@ func c14FuzzOne(a, b string) (ds []keyed) {
 	if pi != nil {
 		return append(ds, keyed{"iri panic@" + pi.Frame, pi.Value})
 	}
-	if want := ap.IRI(b).Equals(ap.IRI(a), false); in != want && a != "" && b != "" {
+	// the empty IRI and the nil IRI "-" are "nothing" (C20): a list does not contain them
+	if want := ap.IRI(b).Equals(ap.IRI(a), false); in != want && a != "" && b != "" && a != string(ap.NilIRI) && b != string(ap.NilIRI) {
 		ds = append(ds, keyed{"iri lists membership", fmt.Sprintf("IRIs{%q}.Contains(%q) = %v, Equals says %v", b, a, in, want)})
 	}
 	return ds
